@@ -449,8 +449,14 @@ def _build_ct(ctx, config):
     nm = subprocess.run(["go", "tool", "nm", "-n", "-size", out], env=env2, stdout=subprocess.PIPE, universal_newlines=True).stdout
     addr = {}
     ranges = []
+    static_end = 0
     for ln in nm.splitlines():
         f = ln.split()
+        if len(f) >= 4 and f[2] in ("T", "t", "D", "d", "B", "b", "R", "r"):
+            try:
+                static_end = max(static_end, int(f[0], 16) + int(f[1]))
+            except ValueError:
+                pass
         if len(f) < 4 or f[2] not in ("T", "t"):
             continue
         a, size, name = int(f[0], 16), int(f[1]), f[3]
@@ -464,14 +470,20 @@ def _build_ct(ctx, config):
     with open(rf, "w") as fh:
         for a, b in sorted(ranges):
             fh.write("%x %x\n" % (a, b))
-    return out, flt, addr["main.verifMarkBegin"], addr["main.verifMarkEnd"], rf
+    static_end = (static_end + 0xffff) & ~0xffff
+    if goarch == "386":     # 32-bit: the arena follows the binary; mmap'ed runtime metadata lives in the upper half
+        layout = "CT_STATIC_END=%x CT_ARENA_LO=%x CT_ARENA_HI=%x" % (static_end, static_end, 0x80000000)
+    else:
+        layout = "CT_STATIC_END=%x CT_ARENA_LO=%x CT_ARENA_HI=%x" % (static_end, 0xc000000000, 0xd000000000)
+    return out, flt, addr["main.verifMarkBegin"], addr["main.verifMarkEnd"], rf + "|" + layout
 
 
 def _ct_run(args):
     import subprocess, re
     probe, flt, b, e, rf, op, secret = args
+    rf, layout = rf.split("|")
     cmd = ("GOGC=off GOMAXPROCS=1 GODEBUG=asyncpreemptoff=1 setarch x86_64 -R valgrind --tool=lackey --trace-mem=yes --log-fd=9 "
-           "%s %s %s 9>&1 >/dev/null 2>/dev/null | %s %s %s %s" % (probe, op, secret, flt, b, e, rf))
+           "%s %s %s 9>&1 >/dev/null 2>/dev/null | %s %s %s %s %s" % (probe, op, secret, layout, flt, b, e, rf))
     p = subprocess.run(["bash", "-c", cmd], stdout=subprocess.PIPE, stderr=subprocess.STDOUT, universal_newlines=True, timeout=600)
     m = re.search(r"records=(\d+) sha256=([0-9a-f]+)", p.stdout)
     if not m:
@@ -516,9 +528,12 @@ def c20(ctx):
         if ob is not None and not s.endswith("/repeat"):
             by_class.setdefault((cfg, cls, shape), []).append(i)
     retried = 0
+    disagreeing = [k for k, idxs in by_class.items() if len(set(res[i][0] for i in idxs)) > 1]
     for key, idxs in by_class.items():
         if len(set(res[i][0] for i in idxs)) <= 1:
             continue
+        if len(disagreeing) > 12 and disagreeing.index(key) >= 12:
+            continue          # systematic disagreement: re-running everything would only cost time
         with ThreadPoolExecutor(max_workers=4) as ex:
             again = list(ex.map(_ct_run, [jobs[i] for i in idxs] * 2))
         for k, i in enumerate(idxs):
